@@ -83,8 +83,10 @@ def _evaluate(run, items, x, label, rng, conservative, order, inplace):
     kw = {}
     if order == 3:
         keep = [f.values.copy() for f in x.fields]
-        for f in x.fields:
-            f.values[:] = f.values + 0.02 * max(1.0, float(np.abs(f.values).max())) * rng.standard_normal(f.values.shape)
+        for k, f in enumerate(x.fields):
+            # another admissible state nearby: displacements move by 2 % of the body (whatever its length unit), the other fields by 0.02
+            unit = float(np.ptp(f.region.mesh.points, axis=0).max()) / 1.5 if k == 0 else 1.0
+            f.values[:] = f.values + 0.02 * max(unit, float(np.abs(f.values).max())) * rng.standard_normal(f.values.shape)
         fun_items(items, x)
         jac_items(items, x)
         for f, v in zip(x.fields, keep):
